@@ -6,7 +6,7 @@ import math
 import numpy as np
 from hypothesis import strategies as st
 
-from ..harness import Sub, Violation, Inconclusive, crash_is_violation
+from ..harness import interpreted_kernels, Sub, Violation, Inconclusive, crash_is_violation
 from ..oracles import bspl, advect
 
 PROPERTY = "C13"
@@ -129,6 +129,29 @@ def predicate(case):
                             "(order %d, nz %d, iota %r)" % (i, start + i, r, err, tol, order, nz, case["iota"]))
         if ret is not got and not np.array_equal(ret, got):
             raise Violation("C13:%s:return" % path, "returned array differs from the output argument")
+        # potentials stored in another number type (interpreted kernels only: a compiled extension may insist on float64):
+        # the same numbers, so the same gradient as for their float64 copy
+        if interpreted_kernels():
+            for what, alt in (("int64", np.rint(phi * 16 / scale).astype(np.int64)), ("float32", phi.astype(np.float32))):
+                with crash_is_violation("C13:gradient", "ParallelGradient.parallel_gradient (%s potential)" % what):
+                    ga = np.full(phi.shape, np.nan)
+                    pg.parallel_gradient(alt, i, ga)
+                    gb = np.full(phi.shape, np.nan)
+                    pg.parallel_gradient(alt.astype(float), i, gb)
+                sa = float(np.abs(alt).max()) + 1e-300
+                if not (np.abs(ga - gb) <= 1e3 * EPS * tint.cond * sa * amp).all():
+                    raise Violation("C13:%s:dtype" % path, "a potential stored as %s gives a gradient differing by %.3e from that of "
+                                    "the same numbers stored as float64 (tol %.3e)"
+                                    % (what, np.nanmax(np.abs(ga - gb)), 1e3 * EPS * tint.cond * sa * amp))
+            # potential and result handed over as slices of larger blocks
+            pblk = np.full(phi.shape + (2,), np.nan)
+            pblk[..., 0] = phi
+            oblk = np.full(phi.shape + (2,), np.nan)
+            with crash_is_violation("C13:gradient", "ParallelGradient.parallel_gradient (arguments given as views)"):
+                pg.parallel_gradient(pblk[..., 0], i, oblk[..., 1])
+            if not (np.abs(oblk[..., 1] - got) <= 1e-12 * scale * amp).all() or not np.isnan(oblk[..., 0]).all():
+                raise Violation("C13:%s:view" % path, "potential and result given as slices of larger blocks: max |view - contiguous| "
+                                "= %.3e" % np.nanmax(np.abs(oblk[..., 1] - got)))
         # zero on constants
         cst = np.full_like(phi, 2.5)
         out = np.empty_like(phi)
